@@ -39,6 +39,18 @@ def make_file(path, rng, kind):
         a = (k + 1) * 1000000 + np.arange(grid) + 1
         a[holes] = 0
         arrays[code] = a
+    # header values that happen to be zero at populated slots (zero-based line numbers, counters from 0, a grid through
+    # the origin); on irregular files not in the inline-number array, where zero *means* a hole
+    zeros = []
+    if stored and rng.random() < .6:
+        ks = [k for k, code in enumerate(stored) if not (kind == 'irregular' and code == 189)]
+        free = [q for q in range(grid) if q not in holes]
+        for _ in range(int(rng.integers(1, 4))):
+            if ks and free:
+                zeros.append((int(rng.choice(ks)) if rng.random() < .5 else ks[0], int(rng.choice(free + [free[0], free[-1]]))))
+        zeros = sorted(set(zeros))
+        for k, q in zeros:
+            arrays[stored[k]][q] = 0
     consts = {115: 8, 117: 4000}
     dups = {197: stored[0]} if stored and rng.random() < .5 and 197 not in stored else {}
     spec.build_file(path, lay, spec.version_encode(0, 2, 9, True), il=(5, 1), xl=(7, 1), z=(0, 4000), arrays=arrays, consts=consts,
@@ -52,7 +64,7 @@ def make_file(path, rng, kind):
             rows.append(f'0:{spec.FIELDS.index(dups[code]) + 1}')
         else:
             rows.append(f'{consts.get(code, 0)}:0')
-    return dict(kind=kind, grid=grid, holes=holes, stored=stored, dups=dups, rows=rows, footer=h.footer_offset(0), stride=h.stride,
+    return dict(kind=kind, grid=grid, holes=holes, zeros=zeros, stored=stored, dups=dups, rows=rows, footer=h.footer_offset(0), stride=h.stride,
                 len=h.array_bytes, is3d=kind not in ('2d', '2d-const'), structured=(kind == 'regular'), n=n)
 
 
@@ -93,12 +105,15 @@ def expected(fd, op):
                 return ('err', 'index')
             slot = t
         consts = {115: 8, 117: 4000}
-        return ('ok', [(stored.index(src[c]) + 1) * 1000000 + slot + 1 if c in src else consts.get(c, 0) for c in spec.FIELDS])
+        zeros = set(fd.get('zeros', []))
+        return ('ok', [(0 if (stored.index(src[c]), slot) in zeros else (stored.index(src[c]) + 1) * 1000000 + slot + 1)
+                       if c in src else consts.get(c, 0) for c in spec.FIELDS])
     if op[0] == 'tfv':
         if op[1] not in src:
             return ('err', 'other')
         k = stored.index(src[op[1]])
-        return ('ok', [0 if p in holes else (k + 1) * 1000000 + p + 1 for p in range(grid)])
+        zeros = set(fd.get('zeros', []))
+        return ('ok', [0 if p in holes or (k, p) in zeros else (k + 1) * 1000000 + p + 1 for p in range(grid)])
     return None
 
 
@@ -128,7 +143,7 @@ def enumerate_short_histories(ctx, model, path, fd, desc, depth):
 def run_history(ctx, model, path, fd, ops, desc):
     """ops: list of ('hdr', t) | ('hdrall', t) | ('tfv', code) | ('rvh', pad) | ('rvh1', pad, code) | ('clear',)"""
     head = (f"hhist {fd['grid']} {1 if fd['is3d'] else 0} {1 if fd['structured'] else 0} {fd['footer']} {fd['stride']} {fd['len']} "
-            f"{spec.FIELDS.index(189)} ; {' '.join(fd['rows'])} ; {' '.join(str(p) for p in fd['holes'])}")
+            f"{spec.FIELDS.index(189)} ; {' '.join(fd['rows'])} ; {' '.join([str(p) for p in fd['holes']] + ['z%d:%d' % z for z in fd.get('zeros', [])])}")
     lines, impl = [], []
     with symcodec.symbolic_decoder():
         hdl = iolog.LoggedFile(path)
